@@ -27,6 +27,9 @@ CLAIMED = {
  "C08": ("exhaustive enumeration of all random-choice sequences (scripted generator) of bounded instances vs an exact reference outcome law; probability vectors checked at the generator interface",
          "For bounded instances of every archetype the scripted generator enumerates every choice sequence of the real generator; the probability of each producible molecule (sum over paths of the product of the probabilities handed to rng.choice) must equal, within 1e-9, the value computed from the notation by an independent enumerator; supports must be equal, the total must be 1, and every vector handed to rng.choice must be a probability vector. Exhaustive per instance (when the path cap is not hit), sampling over instances.",
          "Trusted: the reference law of gbsv/reflaw.py (DESIGN.md §0), RDKit canonical SMILES as molecule identity.", "DESIGN.md §2 C08"),
+ "C09": ("statistical property test: histogram of block sizes from seeded generations (single molecules and pooled small ensembles) against closed-form reference laws; exact binomial per bin + 8-sigma mean, re-confirmed; independence of blocks",
+         "Generated cases (family, parameters with the documented order and meaning, repeat-unit mass, 1-2 blocks, two generation routes); per case N generations, block sizes read from residue tags; the probability of stopping after n units must equal the reference law's mass between the cumulative masses (integer laws with the ceil(c)-1 convention; Schulz-Zimm as the documented density on the integers); two blocks must be independent and one target is drawn per object. Decided by finite samples with alpha 1e-10 (Bonferroni) and confirmation on rejection - a goodness-of-fit test never proves equality; the minimal detectable shift shrinks with the thorough tier's sample size.",
+         "Trusted: scipy closed-form laws, residue tags, stated tolerance 2/Mn for the Schulz-Zimm normalisation.", "DESIGN.md §2 C09"),
  "C10": ("stateful / model-based testing (Hypothesis RuleBasedStateMachine) with a differential oracle against a pristine forked baseline and immutability invariants",
          "Generated operation histories over several strings and several parsed instances per string (parse again, seeded generation, generation with / reseeding / advancing the global generator, printing, queries, reaction graph, atom graph, mirror); every seeded generation must equal the answer of a fork of a template process that imported the library and did nothing else; after every step every live object prints and reports generable exactly as at parse time; an explicit generator leaves the global one untouched.",
          "Trusted: fork gives a history-free baseline; molecule identity = canonical SMILES + weight.", "DESIGN.md §2 C10"),
